@@ -1349,7 +1349,7 @@ func scenC07(g *Gen, dir string) ([]*Op, func(e *Env, i int, op *Op, obs []strin
 		signers = append(signers, s2.keyList()...)
 		g.count("mix:second-signature")
 	}
-	variant := r.Intn(8)
+	variant := r.Intn(10)
 	var nobj uint32
 	for _, x := range groups {
 		nobj += uint32(len(x))
@@ -1373,6 +1373,13 @@ func scenC07(g *Gen, dir string) ([]*Op, func(e *Env, i int, op *Op, obs []strin
 	case 2: // unrecognised signature format
 		ops = append(ops, &Op{Kind: "add", T: TOpt{Kind: "det"}, DI: sigObjectDI(pick(r, [][]byte{[]byte("not a signature"), {}, []byte("{}"), []byte("-----BEGIN PGP SIGNED MESSAGE-----\n")}), 1, 0, 1, nil, 0)})
 		g.count("variant:unrecognised-format")
+	case 4, 5: // the genuine metadata in an envelope of a payload type that is almost, but not, the SIF metadata type, signed by the same (trusted) key
+		if s.PGP < 0 && len(s.DSSE) > 0 {
+			near := pick(r, []string{strings.ToUpper(mediaType), "Application/vnd.sylabs.sif-metadata+json", mediaType + ";charset=utf-8",
+				mediaType + "; profile=x", mediaType + " ", " " + mediaType, mediaType + "\t", "application/vnd.sylabs.sif-metadata+JSON"})
+			ops = append(ops, &Op{Kind: "rewrap", S: SOpts{DSSE: []int{s.DSSE[0]}, Groups: []uint32{1}}, Text: []byte(near)})
+			g.count("variant:payload-type-near-miss")
+		}
 	case 3: // a genuine PGP signature packet transplanted onto other (equivalent-looking) metadata
 		if s.PGP >= 0 {
 			ops = append(ops, &Op{Kind: "transplant", S: SOpts{Groups: []uint32{1}}, FP: u.PGP[s.PGP].PrimaryKey.Fingerprint})
@@ -1430,6 +1437,27 @@ func scenC07(g *Gen, dir string) ([]*Op, func(e *Env, i int, op *Op, obs []strin
 	ops = append(ops, factsOp())
 	ver := len(ops)
 	ops = append(ops, &Op{Kind: "verify", V: v})
+	if variant >= 8 && r.Chance(1, 2) {
+		// one Verifier kept while the group's first signature is deleted and the group is signed
+		// again by somebody else (the new signature takes the freed slot and ID): what the kept
+		// Verifier then reports is held to the same rules
+		var outsider []int
+		for k := 100; k < 100+len(u.DSSE); k++ {
+			if !containsInt(trust, k) && !containsInt(signers, k) {
+				outsider = append(outsider, k)
+			}
+		}
+		if len(outsider) > 0 {
+			ops[ver] = &Op{Kind: "vhold", V: v}
+			ops = append(ops, &Op{Kind: "vheld", N: 0},
+				&Op{Kind: "del", Sel: Sel{Kind: "id", N: int64(nobj) + 1}, T: TOpt{Kind: "det"}},
+				&Op{Kind: "sign", S: SOpts{PGP: -1, DSSE: []int{pick(r, outsider)}, Groups: []uint32{1}, T: TOpt{Kind: "det"}}},
+				factsOp())
+			ver = len(ops)
+			ops = append(ops, &Op{Kind: "vheld", N: 0})
+			g.count("variant:verifier-kept-across-re-signing-by-an-outsider")
+		}
+	}
 	check := func(e *Env, i int, op *Op, obs []string) *Violation {
 		if i != ver || e.f == nil || len(obs) == 0 || !strings.HasPrefix(obs[0], "v ok") {
 			return nil
@@ -1484,6 +1512,9 @@ func scenC07(g *Gen, dir string) ([]*Op, func(e *Env, i int, op *Op, obs []strin
 			fmt.Sscan(fieldOf(l, "sig"), &sid)
 			fl := facts[sid]
 			keys, ent := fieldOf(l, "keys"), fieldOf(l, "ent")
+			if pt, _ := hex.DecodeString(strings.ReplaceAll(fieldOf(fl, "ptype"), "-", "")); fieldOf(fl, "dsse") == "1" && keys != "" && string(pt) != mediaType {
+				return &Violation{Prop: "C07", Key: "C07:foreign-payload-type", What: fmt.Sprintf("signature %d, a DSSE envelope of payload type %q, was accepted", sid, pt), Op: i}
+			}
 			if keys == "" && ent == "-" {
 				return &Violation{Prop: "C07", Key: "C07:no-validating-key", What: fmt.Sprintf("signature %d accepted without any supplied key validating it", sid), Op: i}
 			}
